@@ -14,7 +14,7 @@ def extra_checks(tier, seed):
     from adaptix import NameStyle
     from contracts import enum_provider as ep
     t0 = time.time()
-    viol, n, skipped = [], 0, []
+    viol, n, skipped, not_representable = [], 0, [], 0
     enum_cfgs = {
         "exact": lambda: [enum_by_exact_value()],
         "name": lambda: [enum_by_name()],
@@ -53,11 +53,23 @@ def extra_checks(tier, seed):
         mask = 0
         for m in singles:
             mask |= m.value
+        compound_ok = "c0" not in pname
+        cases = [m for m in singles if compound_ok or (m.value > 0 and m.value & (m.value - 1) == 0)]
         for v in range(0, mask + 1):
             try:
                 val = cls(v)
             except ValueError:
                 continue
+            if pname != "exact":
+                # "any combination of flags": a value that is not the union of the members this representation may name has no
+                # list-of-names representation at all (premise of the bijection, counted below)
+                part = cls(0)
+                for m in cases:
+                    if m in val:
+                        part |= m
+                if part != val:
+                    not_representable += 1
+                    continue
             n += 1
             try:
                 d = r.dump(val, cls)
@@ -74,6 +86,7 @@ def extra_checks(tier, seed):
         "bounded": [{"unit": "enum/flag round trips", "bound": f"{len(ep.ENUMS)} enum classes x {len(enum_cfgs)} providers, "
                      f"{len(ep.FLAGS)} flag classes x {len(flag_cfgs)} providers; all members and all combinations 0..mask: "
                      f"{n} round trips (exhaustive per class)"}],
-        "samples": [{"roundtrips": n, "failed": len(viol), "skipped_premise_violations": skipped}],
+        "samples": [{"roundtrips": n, "failed": len(viol), "skipped_premise_violations": skipped,
+                     "flag_values_that_are_no_union_of_nameable_members": not_representable}],
         "solver_time": 0.0, "assumptions": [], "wall": time.time() - t0,
     }]
